@@ -144,6 +144,24 @@ func TestEngineCache(t *testing.T) {
 				_ = st.SetNodeStatus(ctx, node, -1)
 			case "get":
 				_, _ = enginefactory.GetEngine(ctx, cfg, name, endpoint, "", "", "")
+			case "churn":
+				// other endpoints (fake daemons of their own) enter and leave the cache, each removed while the next is added
+				for k := 0; k < 8; k++ {
+					da, db := &dockerd{}, &dockerd{}
+					if da.up() != nil || db.up() != nil {
+						break
+					}
+					epa, epb := "tcp://"+da.addr, "tcp://"+db.addr
+					_, _ = enginefactory.GetEngine(ctx, cfg, name+"x", epa, "", "", "")
+					var wg sync.WaitGroup
+					wg.Add(2)
+					go func() { defer wg.Done(); enginefactory.RemoveEngineFromCache(ctx, epa, "", "", "") }()
+					go func() { defer wg.Done(); _, _ = enginefactory.GetEngine(ctx, cfg, name+"y", epb, "", "", "") }()
+					wg.Wait()
+					enginefactory.RemoveEngineFromCache(ctx, epb, "", "", "")
+					da.down()
+					db.down()
+				}
 			case "wait":
 				time.Sleep(1800 * time.Millisecond) // >= 2 rounds of the liveness loop (each: validate <= 250 ms + sleep 250 ms)
 			}
